@@ -74,6 +74,8 @@ SEPS = [' ', '_', ' - ']
 EXTS = ['.mp3', '.flac', '.txt']
 QUIET = 0.5
 MAX_OPS = 14
+SLOW_CLOSE = [0.0, 0.2, 1.5, 5.5]      # seconds until a closing child connection is confirmed closed (5.5 > DISCONNECT_TIMEOUT)
+SLOW_BUDGET = 12.0                     # total virtual seconds of slow closes per case (peer read timeout is 60 s)
 
 
 # ---------------------------------------------------------------------------
@@ -118,8 +120,15 @@ def _change():
         st.fixed_dictionaries({'op': st.just('pp'), 'peers': st.lists(st.integers(0, 4), min_size=1, max_size=2)}),
         st.fixed_dictionaries({'op': st.just('announce'), 'which': st.integers(0, 3), 'form': st.sampled_from([0, 0, 1, 2, 3, 4]),
                                'level': st.integers(1, 4), 'root': st.integers(0, 2)}),
-        st.fixed_dictionaries({'op': st.just('reset')}),
+        _reset(),
     )
+
+
+def _reset():
+    # 'slow': the client-side close of one child ('stall') is confirmed late (index into SLOW_CLOSE), as for a
+    # peer that does not drain its socket; 'join': peers that connect while the reset still awaits that close
+    return st.fixed_dictionaries({'op': st.just('reset'), 'slow': st.sampled_from([0, 1, 2, 2, 3]),
+                                  'stall': st.integers(0, 3), 'join': st.lists(st.integers(0, 4), max_size=2)})
 
 
 @st.composite
@@ -152,7 +161,12 @@ def case_strategy(draw, avoid_own=False):
         ops.append(draw(_search(avoid_own)))
         if draw(st.booleans()):
             ops.append(draw(_search(avoid_own)))
-        ops += draw(st.lists(_change(), min_size=0, max_size=2))
+        if draw(st.integers(0, 3)) == 0:
+            # a child joins while a reset still waits for a slowly closing child, then a request
+            ops.append({'op': 'reset', 'slow': draw(st.sampled_from([1, 2, 2, 3])), 'stall': draw(st.integers(0, 3)),
+                        'join': draw(st.lists(st.integers(0, 4), min_size=1, max_size=2))})
+        else:
+            ops += draw(st.lists(_change(), min_size=0, max_size=2))
     ops.append(draw(_search(avoid_own)))
     return {
         'files': files,
@@ -220,7 +234,9 @@ def _sanitise_inner(case):
             ops.append({'op': 'announce', 'which': _int(o.get('which'), 0, 10 ** 6), 'form': _int(o.get('form'), 0, 4),
                         'level': _int(o.get('level'), 1, 50, 1), 'root': _int(o.get('root'), 0, 10 ** 6) % len(ROOTS)})
         elif kind == 'reset':
-            ops.append({'op': 'reset'})
+            ops.append({'op': 'reset', 'slow': _int(o.get('slow'), 0, len(SLOW_CLOSE) - 1),
+                        'stall': _int(o.get('stall'), 0, 10 ** 6),
+                        'join': [_int(p, 0, 10 ** 6) for p in (o.get('join') or [])[:2] if isinstance(p, int)]})
     return {'files': files, 'friends': _int(case.get('friends'), 0, 15), 'speed': _int(case.get('speed'), 0, 1),
             'asker_close': bool(case.get('asker_close')), 'ops': ops}
 
@@ -266,6 +282,28 @@ class _Conn:
     @property
     def open(self):
         return not self.role.startswith('closed')
+
+
+def _slow_close(link, delay):
+    """The client's transport of this connection confirms close() only after ``delay`` virtual seconds (what a real
+    socket transport does while unsent data is buffered for a peer that does not read): is_closing() is true at
+    once, connection_lost -- and with it StreamWriter.wait_closed() -- comes later."""
+    ep = link.ep
+    tr = ep.link.sides[1 - ep.index]
+
+    def close():
+        if tr._closing:
+            return
+        tr._closing = True
+
+        def confirm():
+            if tr._lost:
+                return
+            tr._lost = True
+            tr._protocol.connection_lost(None)
+            tr._link.side_closed(tr._index)
+        tr._loop.call_later(delay, confirm)
+    tr.close = close
 
 
 def _search_fields(msg):
@@ -336,6 +374,7 @@ def run_case(case) -> CaseResult:
             cache = collections.deque(maxlen=POTENTIAL_PARENTS_CACHE_SIZE)
             state = {'parent': None}
             reply_seen = {}
+            slow_left = [SLOW_BUDGET]
 
             def open_conn_of(name):
                 return [k for k in conns if k.peer == name and k.open]
@@ -541,11 +580,32 @@ def run_case(case) -> CaseResult:
                     model_announce(k, msgs)
                     await quiet()
                 elif kind == 'reset':
+                    kids = [k for k in conns if k.role == 'child']
+                    delay = SLOW_CLOSE[o.get('slow', 0)]
+                    if delay and kids and slow_left[0] >= delay:
+                        slow_left[0] -= delay
+                        _slow_close(kids[o['stall'] % len(kids)].link, delay)
+                        notes.append('reset-with-slow-child-close')
+                    else:
+                        delay = 0.0
                     world.server.send(M.ResetDistributed.Response())
                     for k in conns:
                         if k.role in ('child', 'parent'):
                             k.role = 'closed-' + k.role
                     state['parent'] = None
+                    # peers that connect while the client is still closing its old children: they are accepted
+                    # (told the branch level) and are current children from then on
+                    for step, i in enumerate(o.get('join', [])):
+                        await asyncio.sleep(0.05)
+                        free = [n for n in TREE if not open_conn_of(n) and n not in cache]
+                        if not free:
+                            break
+                        name = free[i % len(free)]
+                        link = peers[name].connect('D')
+                        conns.append(_Conn(link, name, 'child', True))
+                        if delay > 0.05 * (step + 1):
+                            notes.append('child-joins-during-reset')
+                    await asyncio.sleep(delay)
                     await quiet()
             await flush()
             await client.stop()
